@@ -580,7 +580,7 @@ pub fn run(ctx: &Ctx) -> ! {
          cipher suite with new signing identities) followed by ReinitClient::commit / join, or Group::branch / join_subgroup; successor member set in {equal, strict subset, superset, one identity replaced}, \
          key packages in shuffled order. Oracle: after the ReInit commit every member refuses to commit and further commits are rejected; ReinitClient::commit succeeds iff the identity sets are equal \
          (whatever the old tree shape or order), branch iff subset; every included old member joins and all successor members agree (context, authenticator, tree), epoch 1, announced group id / suite; \
-         joining without the old group (plain join_group), from a copy that never saw the ReInit, or from the old group at another epoch fails. Non-trivial = old tree with a blank interior leaf or a changed \
+         joining without the old group (plain join_group), from a copy that never saw the ReInit, or from the old group at another epoch fails; the freeze survives write + load; successors and sub-groups with a wrong member set, another group id or other group context extensions (made by the library's own creator minus its check, hooks) and cross-fed Welcomes are refused by every joiner. Non-trivial = old tree with a blank interior leaf or a changed \
          identity, or a member-set variant other than equal.",
     );
     let run = |c: &Case| run_case(c, &ev);
